@@ -48,3 +48,45 @@ ITEMS = [('src/mbi/dataset.py', 'Dataset.project', PROJECT), ('src/mbi/dataset.p
 
 def hooks_for(c):
     return SiteSpecHooks(c.get('sites', []))
+
+
+def replay(ob):
+    """Native replay of refuted Dataset.datavector / Dataset.__init__ / Dataset.project obligations: a weighted frame whose columns are
+    permuted, carry an extra column and do not cover the top code of any attribute; datavector (flat and shaped) and project are compared
+    with a counting loop."""
+    if 'Dataset.' not in ob.name:
+        return None
+    import itertools
+    import numpy as np
+    import pandas as pd
+    from .. import env
+    env.ensure_repo_importable()
+    from mbi import Domain, Dataset
+    dom = Domain(['a', 'b', 'c'], [3, 2, 4])
+    rec = np.array([[0, 0, 1], [1, 1, 0], [1, 0, 2], [0, 1, 2], [1, 1, 2]])        # top codes a=2, c=3 never occur
+    w = np.array([1.0, 2.0, 0.5, 4.0, 3.0])
+    frame = pd.DataFrame(rec, columns=['a', 'b', 'c'])
+    frame['zz'] = 9
+    frame = frame[['zz', 'c', 'a', 'b']]
+    bad = []
+    try:
+        ds = Dataset(frame, dom, w.copy())
+        want = np.zeros((3, 2, 4))
+        for r, wt in zip(rec, w):
+            want[tuple(r)] += wt
+        got = np.asarray(ds.datavector(flatten=False), dtype=float)
+        if got.shape != want.shape or not np.allclose(got, want):
+            bad.append('datavector(flatten=False)')
+        if not np.allclose(np.asarray(ds.datavector(), dtype=float), want.reshape(-1)):
+            bad.append('datavector()')
+        for proj in (('c', 'a'), ('b',), ['a', 'c']):
+            idx = [['a', 'b', 'c'].index(p) for p in proj]
+            wp = np.zeros([dom.shape[i] for i in idx])
+            for r, wt in zip(rec, w):
+                wp[tuple(r[i] for i in idx)] += wt
+            gp = np.asarray(ds.project(proj).datavector(flatten=False), dtype=float)
+            if gp.shape != wp.shape or not np.allclose(gp, wp):
+                bad.append('project(%r).datavector' % (proj,))
+    except Exception as e:
+        return dict(reproduced=True, inputs=dict(domain='a:3,b:2,c:4', records=rec.tolist(), weights=w.tolist()), raised='%s: %s' % (type(e).__name__, e))
+    return dict(reproduced=bool(bad), inputs=dict(domain='a:3,b:2,c:4', frame_columns=['zz', 'c', 'a', 'b'], records=rec.tolist(), weights=w.tolist()), wrong=bad)
